@@ -38,6 +38,54 @@ theorem acceptable_stays_unreported (v : Tree → List Finding) (t : Tree) (c : 
     (hq : ∀ p ∈ pathNodes c t, v p = []) (hs : quietSiblings v c = true) : visit v (plug c t) = [] := by
   rw [findings_exact_in_quiet_context v t c hq hs, ht]
 
+/-! ### The example's findings form one contiguous block; embeddings compose -/
+
+/-- what the file reports before the example: the enclosing nodes' own verdicts and the code to the left -/
+def before (v : Tree → List Finding) : Ctx → Tree → List Finding
+  | .hole, _ => []
+  | .node l n left inner right, t => v (plug (.node l n left inner right) t) ++ visitList v left ++ before v inner t
+
+/-- … and after it: the code to the right, innermost first -/
+def after (v : Tree → List Finding) : Ctx → List Finding
+  | .hole => []
+  | .node _ _ _ inner right => after v inner ++ visitList v right
+
+/-- **Exact shape of the report for every context** (quiet or not): the example's findings appear unchanged,
+    in order and as one block; everything else is determined by the surroundings -/
+theorem findings_contiguous (v : Tree → List Finding) (c : Ctx) (t : Tree) :
+    visit v (plug c t) = before v c t ++ visit v t ++ after v c := by
+  induction c with
+  | hole => simp [plug, before, after]
+  | node l n left inner right ih =>
+    simp only [plug] at ih ⊢
+    simp only [visit, visitList_append, visitList, ih, before, after, plug, List.append_assoc]
+
+/-- the file never reports fewer findings than the example embedded in it -/
+theorem embedding_count_ge (v : Tree → List Finding) (c : Ctx) (t : Tree) :
+    (visit v t).length ≤ (visit v (plug c t)).length :=
+  (findings_survive_embedding v c t).length_le
+
+/-- every single finding of the example is a finding of the file -/
+theorem embedded_finding_reported (v : Tree → List Finding) (c : Ctx) (t : Tree) (f : Finding) (hf : f ∈ visit v t) :
+    f ∈ visit v (plug c t) :=
+  (findings_survive_embedding v c t).subset hf
+
+/-- an example inside a context inside another context: embeddings compose -/
+def Ctx.comp : Ctx → Ctx → Ctx
+  | .hole, d => d
+  | .node l n left inner right, d => .node l n left (Ctx.comp inner d) right
+
+theorem plug_comp (c d : Ctx) (t : Tree) : plug (c.comp d) t = plug c (plug d t) := by
+  induction c with
+  | hole => rfl
+  | node l n left inner right ih => simp [Ctx.comp, plug, ih]
+
+/-- wrapping a file that already embeds the example once more keeps the example's findings -/
+theorem findings_survive_nested_embedding (v : Tree → List Finding) (c d : Ctx) (t : Tree) :
+    (visit v t).Sublist (visit v (plug c (plug d t))) := by
+  rw [← plug_comp]
+  exact findings_survive_embedding v (c.comp d) t
+
 /-- **Multiplicity**: `k` copies of an example report `k` times the example's findings -/
 theorem copies_report_k_times (v : Tree → List Finding) (t : Tree) (k : Nat) :
     visitList v (copies t k) = (List.replicate k (visit v t)).flatten := by
